@@ -27,6 +27,7 @@ class _Purity(DefaultVisitor):
     def __init__(self, ast: FuncDef | Expr, def_use: DefineUseAnalysis):
         self.ast = ast
         self.def_use = def_use
+        self._alias = None
 
     def apply(self) -> bool:
         try:
@@ -66,9 +67,34 @@ class _Purity(DefaultVisitor):
     def _visit_indexed_assign(self, stmt: IndexedAssign, ctx: None):
         super()._visit_indexed_assign(stmt, ctx)
         d = self.def_use.find_def_from_use(stmt)
-        if isinstance(d, AssignDef) and isinstance(d.site, Argument | FuncDef):
+        if _is_external(d) or self._may_be_external(d):
             # modifying an argument or a free variable
             raise _ImpureError(f'Impure: Indexed assignment {stmt}')
+
+    def _may_be_external(self, d) -> bool:
+        """Whether the list *d* names may be one the caller (or the enclosing
+        scope) holds: reached through an alias (`ys = xs`), through a loop phi
+        (`xs[i] = e` in a loop body redefines `xs`), as a row of such a list,
+        or handed back by a call."""
+        if not isinstance(self.ast, FuncDef):
+            return True
+        if self._alias is None:
+            # deferred: `alias` imports the type checker
+            from .alias import Alias
+            try:
+                self._alias = Alias.analyze(self.ast, def_use=self.def_use)
+            except Exception:
+                return True
+        region = self._alias.region_of(d)
+        if region is None:
+            return True
+        if any(site.kind in ('param', 'call') for site in self._alias.sites_at(region)):
+            return True
+        return any(_is_external(other) for other in self._alias.defs_in(region))
+
+
+def _is_external(d) -> bool:
+    return isinstance(d, AssignDef) and isinstance(d.site, Argument | FuncDef)
 
 
 class Purity:
